@@ -2,10 +2,15 @@
     interleaving model (Proofs/Conc.v): any number of threads, ANY schedule.  If every thread seeks and reads only while it
     holds the device lock and every read follows a seek of the same locked section (the shape of read_cluster_contents,
     __parse_dir_entry, _parse_fat, parse_header — checked on the real event traces by the harness), then each thread
-    returns exactly what it returns alone.  That CPython runs the code between two events without touching other shared
+    returns exactly what it returns alone.  The in-memory tree is shared MUTABLE state for readers too (a directory is
+    parsed into the cache by the first thread that looks into it, D33): C18_lazy_readers — on the shared-state model of
+    Proofs/Linear.v, if every section (the first look into a directory, under the filesystem lock) leaves an abstraction of the
+    state unchanged as a whole and its pieces respect the abstraction, then under EVERY schedule the abstraction a thread sees
+    inside its section is the one it would see running alone from the initial state, whatever the other threads have loaded
+    in between.  That CPython runs the code between two events without touching other shared
     state is validated by controlled schedules on the real code, not proved. *)
 From Coq Require Import ZArith List Bool.
-From PyFatV Require Import Proofs.Conc.
+From PyFatV Require Import Proofs.Linear Proofs.Conc.
 Import ListNotations.
 Open Scope Z_scope.
 
@@ -22,3 +27,20 @@ Proof. exact mutex. Qed.
 Print Assumptions C18_mutex.
 Example C18_read_cluster_is_well_locked : forall dev a, wl dev U (read_at a).
 Proof. exact read_at_wl. Qed.
+
+Theorem C18_lazy_readers : forall (S:Type) (progs:nat -> list (msteps S)) (s0:S) (A:Type) (abs:S -> A),
+  (forall i sec, In sec (progs i) -> forall s, abs (apply_ms S sec s) = abs s) ->
+  (forall i sec m, In sec (progs i) -> In m sec -> forall s s', abs s = abs s' -> abs (m s) = abs (m s')) ->
+  forall sched, let g := Linear.run S (Linear.init S progs s0) sched in
+  (Linear.owner S g = None -> abs (sh S g) = abs s0) /\
+  (forall i, Linear.owner S g = Some i -> exists done ms, cur S (ths S g i) = Some ms /\ In (done ++ ms) (progs i) /\ abs (sh S g) = abs (apply_ms S done s0)).
+Proof. exact sections_see_initial_abstraction. Qed.
+Print Assumptions C18_lazy_readers.
+(* state = (tree, directories loaded so far); two readers each load a directory in two pieces; thread 1 is scheduled while thread 0
+   is inside its section: the tree both see is the initial one, the cache holds both directories afterwards *)
+Example C18_lazy_readers_example :
+  let load d : msteps (Z * list Z) := [fun s => (fst s, d :: snd s); fun s => (fst s, snd s ++ [d])] in
+  let progs := fun i => match i with 0%nat => [load 7] | 1%nat => [load 9] | _ => [] end in
+  let g := Linear.run (Z * list Z) (Linear.init (Z * list Z) progs (42, [])) [0;1;0;1;1;0;1;0;1;1;1;1;1]%nat in
+  sh (Z * list Z) g = (42, [9;7;7;9]) /\ Linear.owner (Z * list Z) g = None.
+Proof. vm_compute. split; reflexivity. Qed.
